@@ -13,6 +13,7 @@ import ast
 import collections
 import itertools
 import random
+import threading
 import traceback
 
 from pgverif.monitors import sched as S
@@ -21,12 +22,13 @@ from pgverif.monitors import sched as S
 S.install_process_wide()
 import pyglove as pg  # pylint: disable=g-import-not-at-top,g-bad-import-order
 from pyglove.ext import evolution as evo  # pylint: disable=g-import-not-at-top
+from pgverif.monitors import tallygen  # pylint: disable=g-import-not-at-top
 
 TIERS = {
-    'quick': dict(shards=8, cases=80, free_every=8, replay_every=20,
+    'quick': dict(shards=8, cases=80, window_cases=60, free_every=8, replay_every=20,
                   watchdog_s=60, timeout_s=600),
-    'thorough': dict(shards=16, cases=1200, free_every=10, replay_every=50,
-                     watchdog_s=60, timeout_s=4500, case_timeout_s=300),
+    'thorough': dict(shards=16, cases=1200, window_cases=1500, free_every=10,
+                     replay_every=50, watchdog_s=60, timeout_s=4500, case_timeout_s=300),
 }
 LEVEL = 'exploration'
 EXHAUSTIVE = {'quick': False, 'thorough': False}
@@ -59,7 +61,8 @@ ASSUMPTIONS = [
 
 TARGETS = ['pyglove/core/tuning/', 'pyglove/core/geno/dna_generator.py',
            'pyglove/core/geno/random.py', 'pyglove/core/geno/sweeping.py',
-           'pyglove/core/geno/deduping.py', 'pyglove/ext/evolution/base.py']
+           'pyglove/core/geno/deduping.py', 'pyglove/ext/evolution/base.py',
+           'pgverif/monitors/tallygen.py']
 
 SPACE = pg.Dict(a=pg.oneof([1, 2, 3, 4]), b=pg.oneof([1, 2, 3]), c=pg.oneof([1, 2]))
 # `space` is handed to pg.sample either as the hyper value (every worker then
@@ -141,6 +144,10 @@ def make_algorithm(kind, seed):
   if kind == 'evolution':
     return evo.regularized_evolution(evo.mutators.Uniform(seed=seed), population_size=3,
                                      tournament_size=2, seed=seed)
+  if kind == 'tally':
+    # A user-written algorithm with ordinary, not thread-safe bookkeeping that
+    # observes itself (see monitors/tallygen.py).
+    return tallygen.TallyGenerator(seed=seed)
   if kind == 'evolution-init1':
     # Same operators, but evolution starts with the very first feedback: a
     # proposal that sees "population initialized" must also see that member.
@@ -194,8 +201,112 @@ def gen_config(rng, mode):
   )
 
 
+def gen_window_config(rng):
+  """A short fresh study whose workers arrive at the same logical time.
+
+  2-4 workers, 1-3 trials each; before the finish of their trial number k
+  (k in `sync_at`, mostly the first) all workers meet at a rendezvous in the
+  evaluation code and are released together; from the release until each has
+  returned from that evaluation step a window policy of the scheduler
+  pre-empts densely (lock-step, random strides, coin flips, enumerated
+  pre-emption depths), because races of "first use" (lazily created shared
+  state, first feedback, first completion) need two workers inside the same
+  few statements and have no second chance later in the study.
+  """
+  w = rng.choice([2, 2, 2, 3, 3, 4])
+  layout = rng.choice(['solo', 'solo', 'distinct', 'distinct', 'shared'])
+  if layout == 'solo':
+    groups = [None] * w
+  elif layout == 'distinct':
+    groups = [f'g{i}' for i in range(w)]
+  else:
+    g = rng.randint(1, max(1, w - 1))
+    groups = [f'g{i % g}' for i in range(w)]
+    rng.shuffle(groups)
+  per = rng.randint(1, 3)
+  n = w * per + rng.choice([0, 0, 1])
+  first = rng.choice(['done', 'done', 'done', 'call', 'done2', 'early', 'skip'])
+  plans = []
+  for _ in range(w):
+    head = first if rng.random() < 0.7 else rng.choice(ACTIONS)
+    plans.append([head] + [rng.choice(ACTIONS) for _ in range(n + 1)])
+  end_loop = None
+  if rng.random() < 0.15:
+    end_loop = (rng.randrange(w), rng.randint(1, per))
+  kind = rng.choice(['lockstep', 'lockstep', 'stutter', 'stutter', 'stutter',
+                     'dense', 'dense', 'preempt'])
+  window = dict(kind=kind)
+  if kind == 'lockstep':
+    window['stride'] = rng.choice([1, 1, 2, 3])
+  elif kind == 'stutter':
+    window['stride_max'] = rng.choice([2, 3, 3, 4])
+  elif kind == 'dense':
+    window['p'] = rng.choice([0.3, 0.5, 0.7])
+  else:
+    # depth 2-3: the leader is stopped after i statements, the next worker
+    # after it has got a little further than the leader, ...
+    i = rng.randint(1, 70)
+    quotas = [i, i + rng.randint(0, 25)]
+    if rng.random() < 0.4:
+      quotas.append(rng.randint(1, 40))
+    window['quotas'] = quotas
+  start = rng.choice(['simultaneous', 'staggered'])
+  return dict(
+      workers=w, groups=groups, n=n, plans=plans, end_loop=end_loop,
+      algorithm=rng.choice(['tally', 'tally', 'tally', 'tally', 'evolution-init1',
+                            'evolution', 'random', 'sweeping']),
+      algo_seed=rng.randint(0, 99),
+      policy=rng.choice([None, None, None, 3.0, 6.0]),
+      space_form=rng.choice(['hyper', 'spec']),
+      start=start,
+      mode='token',
+      sched_seed=rng.getrandbits(32),
+      p_switch=rng.choice([0.05, 0.1, 0.3]),
+      change_points=rng.choice([0, 1, 2]),
+      window=window,
+      sync_at=rng.choice([[0], [0], [0], [0], [0, 1], [1]]),
+      sync_where=rng.choice(['act', 'finish']),
+      window_at_start=start == 'simultaneous' and rng.random() < 0.5,
+  )
+
+
 def horizon_of(cfg):
   return 150 * cfg['n'] + 120 * cfg['workers']
+
+
+class Rendezvous:
+  """All workers of a session meet here and are released together.
+
+  Built on `threading.Condition` (cooperative under the token scheduler: a
+  waiting worker is descheduled; its timed wait "times out" as soon as nobody
+  else can run, e.g. because a worker left the loop before getting here, and
+  the rendezvous is then broken instead of deadlocking the session).
+  """
+
+  def __init__(self, n, on_release, timeout=5.0):
+    self.cond = threading.Condition()
+    self.n, self.timeout, self.on_release = n, timeout, on_release
+    self.members = []
+    self.open = False
+    self.broken = False
+
+  def wait(self, idx):
+    with self.cond:
+      if self.open:
+        return
+      self.members.append(idx)
+      if len(self.members) >= self.n:
+        self._release()
+        return
+      while not self.open:
+        if not self.cond.wait(self.timeout) and not self.open:
+          self.broken = True
+          self._release()
+
+  def _release(self):
+    self.open = True
+    self.on_release(list(self.members))
+    self.cond.notify_all()
 
 
 class Session:
@@ -203,12 +314,21 @@ class Session:
 
   def __init__(self, cfg, name, watchdog_s=30):
     self.cfg, self.name = cfg, name
+    win = cfg.get('window')
+    self.wpolicy = S.WindowPolicy(cfg['sched_seed'], **win) if win else None
     self.sched = S.Scheduler(
         cfg['sched_seed'], targets=TARGETS, p_switch=cfg['p_switch'],
         change_points=cfg['change_points'], horizon=horizon_of(cfg),
         mode=cfg['mode'], watchdog_s=watchdog_s,
         solo_first=cfg['start'] == 'staggered', first=0 if cfg['start'] == 'staggered' else None,
-        free_sleep=0.0)
+        free_sleep=0.0, policy=self.wpolicy)
+    # Windows of dense pre-emption: tag -> set of workers still inside.
+    self.inside = {}
+    self.rendezvous = {
+        k: Rendezvous(cfg['workers'], lambda members, k=k: self._open_window(f'finish-{k}', members))
+        for k in cfg.get('sync_at', ())}
+    if self.wpolicy is not None and cfg.get('window_at_start'):
+      self._open_window('start', range(cfg['workers']))
     self.recorder = Recorder(self.sched)
     self.inner = make_algorithm(cfg['algorithm'], cfg['algo_seed'])
     self.algorithm = RecordingGenerator(inner=self.inner).attach(self.recorder)
@@ -225,6 +345,18 @@ class Session:
   def group_label(self, i):
     g = self.cfg['groups'][i]
     return g if g is not None else f'solo{i}'
+
+  def _open_window(self, tag, members):
+    self.inside[tag] = set(members)
+    if self.wpolicy is not None:
+      self.wpolicy.arm(tag)
+
+  def _leave_window(self, tag, i):
+    members = self.inside.get(tag)
+    if members is not None and i in members:
+      members.discard(i)
+      if not members and self.wpolicy is not None:
+        self.wpolicy.disarm()
 
   def execute(self):
     self.run = self.sched.run(
@@ -251,17 +383,20 @@ class Session:
       log.append((stamp(), 'ret', op, pid, 'ok', r))
       return None
 
-    def act(action, fb, pid, reward):
+    def act(action, fb, pid, reward, pre_finish=lambda: None):
       if action == 'call':
         # feedback(reward) = add_measurement + done
+        pre_finish()
         client_call('done', pid, lambda: _ignore_race(fb, lambda: fb(reward)),
                     'add_measurement')
         return
       if action == 'skip':
+        pre_finish()
         client_call('skip', pid, fb.skip)
         return
       if client_call('measure', pid, lambda: fb.add_measurement(reward, step=1),
                      'add_measurement'):
+        pre_finish()
         return
       if action == 'early':
         log.append((stamp(), 'call', 'probe', pid))
@@ -270,16 +405,29 @@ class Session:
         except Exception as e:  # pylint: disable=broad-except
           log.append((stamp(), 'ret', 'probe', pid, 'raise', type(e).__name__,
                       traceback.format_exc()[-6000:], 'should_stop_early'))
+          pre_finish()
           return
         log.append((stamp(), 'ret', 'probe', pid, 'ok', stop))
         if stop:
+          pre_finish()
           client_call('skip', pid, fb.skip)
           return
       if action in ('done2', 'early'):
         if client_call('measure', pid, lambda: fb.add_measurement(reward, step=2),
                        'add_measurement'):
+          pre_finish()
           return
+      pre_finish()
       client_call('done', pid, fb.done)
+
+    sync_at = self.rendezvous
+    sync_where = cfg.get('sync_where', 'act')
+
+    def meet(k):
+      """Rendezvous of all workers before the finish of their trial number k."""
+      log.append((stamp(), 'meet', k))
+      sync_at[k].wait(i)
+      log.append((stamp(), 'released', k))
 
     def worker():
       it = iter(pg.sample(self.space, self.algorithm, num_examples=cfg['n'],
@@ -292,10 +440,12 @@ class Session:
           _, fb = next(it)
         except StopIteration:
           log.append((stamp(), 'stop'))
+          self._leave_window('start', i)
           break
         except Exception as e:  # pylint: disable=broad-except
           log.append((stamp(), 'next-raise', k, type(e).__name__,
                       traceback.format_exc()[-2500:]))
+          self._leave_window('start', i)
           break
         dna = fb.dna
         pid = dna.userdata.get('pid')
@@ -304,9 +454,19 @@ class Session:
         log.append((stamp(), 'got', tid, pid, nums))
         if k == 0:
           sc.enable_switching()        # staggered start: the first trial is held
+          self._leave_window('start', i)
         action = plan[k % len(plan)]
-        k += 1
-        act(action, fb, pid, reward_of(nums))
+        if k in sync_at:
+          if sync_where == 'act':
+            meet(k)
+            act(action, fb, pid, reward_of(nums))
+          else:
+            act(action, fb, pid, reward_of(nums), lambda k=k: meet(k))
+          self._leave_window(f'finish-{k}', i)
+          k += 1
+        else:
+          k += 1
+          act(action, fb, pid, reward_of(nums))
         if cfg['end_loop'] is not None and cfg['end_loop'] == (i, k):
           client_call('end_loop', pid, fb.end_loop)
       return k
@@ -586,8 +746,41 @@ def check_session(sess, counters):
     if sess.inner.num_feedbacks != nfb:
       bad('algorithm-counters', 'num_feedbacks', f'num_feedbacks={sess.inner.num_feedbacks} '
           f'after {nfb} feedback() calls')
+    if cfg['algorithm'] == 'tally':
+      # The algorithm's own books against the calls that were made on it
+      # (recorded by the wrapper around it): the backend hands a shared
+      # algorithm one propose() / one feedback() at a time, so ordinary
+      # multi-statement bookkeeping must not lose an update.
+      c['check:algorithm-tally'] += 1
+      alg = sess.inner
+      fb_events = [f for fbs in feedbacks.values() for f in fbs]
+      exp_total = sum(f[4] for f in fb_events)
+      c['tally_feedbacks_checked'] += nfb
+      if (alg.count != nfb or alg.total != exp_total
+          or sorted(alg.fed) != sorted(f[2] for f in fb_events)):
+        bad('algorithm-tally', 'feedback',
+            f'{nfb} feedback() calls (proposal, reward, worker) '
+            f'{sorted((f[2], f[4], f[5]) for f in fb_events)} with reward sum {exp_total}, '
+            f'but the algorithm accounted for {alg.count} feedbacks, reward sum {alg.total}, '
+            f'proposals {list(alg.fed)}; at most {alg.max_inside} feedback() calls were '
+            f'inside the algorithm at the same time')
+      if alg.proposed != len(proposals):
+        bad('algorithm-tally', 'propose',
+            f'{len(proposals)} propose() calls returned but the algorithm accounted for '
+            f'{alg.proposed}')
   elif sess.recorder.setups > 1:
     c['sessions_algorithm_setup_twice'] += 1
+  # Evidence only: feedback() calls that overlapped in logical time.
+  spans = []
+  open_fb = {}
+  for e in gens:
+    if e[1] == 'feedback':
+      open_fb.setdefault(e[2], []).append(e[0])
+    elif e[1] == 'feedback-end' and open_fb.get(e[2]):
+      spans.append((open_fb[e[2]].pop(0), e[0]))
+  spans.sort()
+  c['feedback_calls_overlapping_in_algorithm'] += sum(
+      1 for a, b in zip(spans, spans[1:]) if b[0] < a[1])
 
   # -- the evolution's population reflects the feedbacks (Last(3)) -----------------------
   if (cfg['algorithm'].startswith('evolution') and sess.recorder.setups == 1
@@ -686,7 +879,7 @@ def _at(start):
 
 
 def cases(ctx):
-  return ctx.params['cases']
+  return ctx.params['cases'] + ctx.params.get('window_cases', 0)
 
 
 def normalized_history(sess):
@@ -702,8 +895,12 @@ def normalized_history(sess):
 def run_case(ctx, i):
   p = ctx.params
   c = ctx.counters
-  free = p['free_every'] and i % p['free_every'] == p['free_every'] - 1
-  cfg = gen_config(ctx.rng, 'free' if free else 'token')
+  windowed = i >= p['cases']
+  if windowed:
+    cfg = gen_window_config(ctx.rng)
+  else:
+    free = p['free_every'] and i % p['free_every'] == p['free_every'] - 1
+    cfg = gen_config(ctx.rng, 'free' if free else 'token')
   name = f'c16-{ctx.tier}-{ctx.seed}-{ctx.shard}-{i}'
   sess = Session(cfg, name, p['watchdog_s'])
   run = sess.execute()
@@ -725,6 +922,26 @@ def run_case(ctx, i):
   if cfg['mode'] == 'token':
     ctx.seen('interleavings', run.trace_hash)
     c['interleavings_recorded'] += 1
+  window_fp = ()
+  if windowed:
+    c['sessions_window'] += 1
+    c['sessions_window_' + cfg['window']['kind']] += 1
+    c['sessions_window_algo_' + cfg['algorithm']] += 1
+    pol = sess.wpolicy
+    c['windows_opened'] += len(pol.windows)
+    c['rendezvous_broken'] += sum(r.broken for r in sess.rendezvous.values())
+    for wdw in pol.windows:
+      tag, sw = wdw[0], wdw[1:]
+      c['window_policy_switches'] += len(sw)
+      if len(sw) >= 2:
+        c['windows_with_2_or_more_preemptions:' + tag.rstrip('0123456789-')] += 1
+      # the explored interleaving of the window: who was pre-empted where
+      ctx.seen('window_interleavings:' + tag, repr(sw))
+      if tag == 'finish-0':
+        ctx.seen('first_finish_window_interleavings', repr(sw))
+      for x in sw:
+        ctx.seen('window_preemption_sites', x[2])
+    window_fp = tuple(pol.window_hashes())
   case = dict(config=cfg, study=name, trace_hash=run.trace_hash,
               switches=run.switches, points=run.points,
               switch_trace=[list(t[:3]) + [list(t[3])] for t in run.trace[:400]])
@@ -740,7 +957,12 @@ def run_case(ctx, i):
     ctx.violation(clause, mech, detail, case)
   if info.get('private'):
     c['sessions_private_study'] += 1
-  if cfg['mode'] == 'token' and run.switches >= 3 and info.get('trials', 0) >= 4:
+  if windowed:
+    if any(len(wdw) >= 3 for wdw in sess.wpolicy.windows) and info.get('trials', 0) >= 2:
+      ctx.mark_nontrivial((run.trace_hash, window_fp, cfg['workers'],
+                           tuple(map(str, cfg['groups'])), cfg['n'], cfg['algorithm'],
+                           cfg['start']))
+  elif cfg['mode'] == 'token' and run.switches >= 3 and info.get('trials', 0) >= 4:
     ctx.mark_nontrivial((run.trace_hash, cfg['workers'], tuple(map(str, cfg['groups'])),
                          cfg['n'], cfg['algorithm'], cfg['start']))
   # Determinism of the schedule: the same configuration again gives the same
@@ -756,7 +978,7 @@ def run_case(ctx, i):
     else:
       c['replay_different'] += 1
       ctx.notes.setdefault('replay_different', []).append(dict(index=i, shard=ctx.shard))
-  if i < 2:
+  if i < 2 or p['cases'] <= i < p['cases'] + 2:
     ctx.sample(dict(config={k: v for k, v in cfg.items() if k != 'plans'},
                     plan_worker0=cfg['plans'][0][:8], switches=run.switches,
                     points=run.points, trace_hash=run.trace_hash,
@@ -871,8 +1093,11 @@ def main(argv):
   verbose = '-v' in argv
   p = TIERS[tier]
   rng = random.Random(f'C16/{seed}/{shard}/{index}/')
-  free = p['free_every'] and index % p['free_every'] == p['free_every'] - 1
-  cfg = gen_config(rng, 'free' if free else 'token')
+  if index >= p['cases']:
+    cfg = gen_window_config(rng)
+  else:
+    free = p['free_every'] and index % p['free_every'] == p['free_every'] - 1
+    cfg = gen_config(rng, 'free' if free else 'token')
   sess = Session(cfg, f'c16-main-{tier}-{seed}-{shard}-{index}', p['watchdog_s'])
   run = sess.execute()
   print('config:', {k: v for k, v in cfg.items() if k != 'plans'})
@@ -889,6 +1114,8 @@ def main(argv):
     for r in sorted(rows, key=lambda r: r[0]):
       print('  ', *r)
     print('switch trace:', run.trace[:200])
+    if sess.wpolicy is not None:
+      print('windows:', sess.wpolicy.windows)
   for clause, mech, detail in problems:
     print(f'VIOLATED {clause}:{mech}\n    {detail}')
   if not problems:
